@@ -185,6 +185,32 @@ theorem purephase_energy {nr nc : ℕ} (hr : 0 < nr) (hc : 0 < nc)
   intro p hp
   exact (overlapProjection1_energy hr hc patches props p (hprobes p hp) hpatch hprops).2
 
+/-- the same with the probe stack first translated to the (sub-pixel) scan position, as
+`ProbePixelated.forward` does: the pattern's summed intensity is the UNSHIFTED probe's intensity -/
+theorem purephase_energy_shifted {nr nc : ℕ} (hr : 0 < nr) (hc : 0 < nc)
+    (patches props probes : List (Img ℝ)) (r c : ℝ)
+    (hpatch : ∀ O ∈ patches, Rect nr nc O ∧ UnitModulus O)
+    (hprops : ∀ P ∈ props, Rect nr nc P ∧ UnitModulus P)
+    (hprobes : ∀ p ∈ probes, Rect nr nc p) :
+    rsum (detector (overlapProjection patches props (probes.map fun p => fourierShift p r c)).2)
+      = (probes.map energy).sum := by
+  have hT : Rect nr nc (translationOperator nr nc r c) := by
+    rw [translationOperator_eq]; exact rect_build _ _ _
+  have hshift : ∀ p ∈ probes, fourierShift p r c = propagate p (translationOperator nr nc r c) := by
+    intro p hp
+    obtain ⟨f, rfl⟩ := (hprobes p hp).cx_build
+    unfold fourierShift propagate; rw [nrows_build, ncols_build hr]
+  rw [purephase_energy hr hc patches props _ hpatch hprops]
+  · rw [List.map_map]
+    congr 1
+    apply List.map_congr_left
+    intro p hp
+    exact shift_energy hr hc (hprobes p hp) r c
+  · intro q hq
+    obtain ⟨p, hp, rfl⟩ := List.mem_map.1 hq
+    rw [hshift p hp]
+    exact rect_propagate hr hc (hprobes p hp) hT
+
 /-- the model's own propagator arrays satisfy the hypothesis of `purephase_energy` -/
 theorem propagatorArrays_ok (nr nc : ℕ) (sr sc e thr thc : ℝ) (n : ℕ) (dzs : List ℝ) :
     ∀ P ∈ propagatorArrays nr nc sr sc e thr thc n dzs, Rect nr nc P ∧ UnitModulus P := by
